@@ -5,6 +5,7 @@ import (
 	"go/token"
 	"go/types"
 	"strings"
+	"unicode/utf8"
 
 	"golang.org/x/tools/go/ssa"
 
@@ -732,9 +733,21 @@ func runGrpcFlow(c *core.Ctx) {
 		codeOK := codeExpr(call.Call.Args[0], sreg.lits(call.Block()), herr, 0)
 		c.Check(codeOK, "server: status.New(code, ...) for a non-nil error", call.Pos(), "the code is never codes.OK (the error's own code, replaced when it is OK)",
 			"the status for a non-nil handler error is built with the error's code unchecked: for an error carrying codes.OK (WrapWithGrpcCode(err, codes.OK)) gRPC refuses the details - the interceptor panics - and an OK status would report success")
-		msg, isCall := call.Call.Args[1].(*ssa.Call)
+		// the message is the handler error's text, made valid UTF-8: the status message is a protobuf string, and
+		// gRPC, failing to marshal a status whose message is not valid UTF-8, sends it without its details - the
+		// encoded error never reaches the client
+		msgArg := call.Call.Args[1]
+		sanitised := false
+		if tv, isTV := msgArg.(*ssa.Call); isTV && sx.Callee(tv) != nil && sx.Callee(tv).Name() == "ToValidUTF8" && load.FnPkg(sx.Callee(tv)) != nil && load.FnPkg(sx.Callee(tv)).Path() == "strings" && len(tv.Call.Args) == 2 {
+			if rep, isK := sx.ConstString(tv.Call.Args[1]); isK && utf8.ValidString(rep) {
+				sanitised = true
+				msgArg = tv.Call.Args[0]
+			}
+		}
+		msg, isCall := msgArg.(*ssa.Call)
 		ok2 := isCall && msg.Call.IsInvoke() && msg.Call.Method.Name() == "Error" && (msg.Call.Value == herr || identity(sreg.resolve(identity(msg.Call.Value))) == herr)
-		c.Check(ok2, "server: status.New(code, err.Error())", call.Pos(), "the status message is exactly the handler error's text", "the gRPC status message is not the handler error's Error() text itself (it is transformed first): the status can become unmarshalable or differ from the error")
+		c.Check(ok2, "server: status.New(code, err.Error())", call.Pos(), "the status message is the handler error's text", "the gRPC status message is not the handler error's Error() text (it is transformed by something else than strings.ToValidUTF8 first): the status differs from the error")
+		c.Check(sanitised, "server: status message is valid UTF-8", call.Pos(), "strings.ToValidUTF8(err.Error(), …)", "the gRPC status message is the raw Error() text: when it is not valid UTF-8 (a key, a file name, user input quoted in the message) gRPC fails to marshal the status and sends it without details, so the caller receives a bare status error instead of the handler's error")
 	})
 	c.Check(sawGetCode, "server: extgrpc.GetGrpcCode(err)", srv.Pos(), "code taken from the handler's error", "the gRPC code is not computed from the handler's error")
 	// grpc/status.Code forwards to extgrpc.GetGrpcCode, nothing else
@@ -877,6 +890,54 @@ func runGrpcFlow(c *core.Ctx) {
 	}
 	encT := p.ExtNamed(load.ModPath+"/errorspb", "EncodedError")
 	c.Check(dec != nil && assertT != nil && encT != nil && types.Identical(sx.Deref(assertT), encT), "client: detail type", cli.Pos(), "*errors.EncodedError, the type the server attaches", "the client does not look for the detail type the server attaches")
+	// every detail of the received status is looked at: the value tested for being an *EncodedError is the element of
+	// a loop over st.Details() - not one fixed position (another interceptor or a relaying proxy may add details
+	// before or after the one the server interceptor attaches)
+	creg.each(func(in ssa.Instruction) {
+		ta, ok := in.(*ssa.TypeAssert)
+		if !ok || encT == nil || !types.Identical(sx.Deref(ta.AssertedType), encT) {
+			return
+		}
+		v := identity(creg.resolve(identity(ta.X)))
+		construct := "client: every detail of the status is examined"
+		ld, isLd := v.(*ssa.UnOp)
+		var ia *ssa.IndexAddr
+		if isLd {
+			ia, _ = ld.X.(*ssa.IndexAddr)
+		}
+		if ia == nil {
+			if _, isNext := v.(*ssa.Extract); isNext {
+				return // element of a range over something else than a slice: not an index at all
+			}
+			c.Undecided(construct, ta.Pos(), "the value tested for *EncodedError is not an element of the details slice")
+			return
+		}
+		loops := naturalLoops(ta.Parent())
+		idx := ia.Index
+		induct := false
+		if bo, isBO := idx.(*ssa.BinOp); isBO && bo.Op == token.ADD {
+			induct = isLoopCounter(bo, loops)
+		} else if ph, isPhi := idx.(*ssa.Phi); isPhi {
+			for _, l := range loops {
+				if l.Header == ph.Block() {
+					for _, e := range ph.Edges {
+						if bo, isBO := e.(*ssa.BinOp); isBO && bo.Op == token.ADD && (bo.X == ssa.Value(ph) || bo.Y == ssa.Value(ph)) {
+							induct = true
+						}
+					}
+				}
+			}
+		}
+		// ... over the whole list the status hands out
+		whole := false
+		if dc, isCall := identity(creg.resolve(identity(ia.X))).(*ssa.Call); isCall {
+			whole = sx.InvokeName(dc) == "Details" || (sx.Callee(dc) != nil && sx.Callee(dc).Name() == "Details")
+		}
+		c.Check(whole, "client: the examined list is the status' Details()", ta.Pos(), "the loop ranges over st.Details() itself",
+			"the client examines a part of the status details ("+describeVal(ia.X)+") instead of the whole list: an encoded error outside that part is not found and the caller receives the bare status error")
+		c.Check(induct, construct, ta.Pos(), "the tested detail is the element of a loop over the details",
+			"the client looks for the encoded error at one computed position of the status details ("+describeVal(idx)+") instead of examining every detail: when anything else adds a detail (another server interceptor, a relaying proxy) the encoded error is not found and the caller receives the bare status error")
+	})
 	// returned value: phi(invoker err, decoded) — every non-decoded edge is the invoker's error itself
 	sawInvoker, sawDecoded := false, false
 	for _, r := range sx.Returns(cli) {
